@@ -47,6 +47,7 @@ Environment *create_environment(void) {
     env->forbid_unsafe = false;
     env->profile_gprof = false;
     env->suppress_shadow_warnings = false;
+    env->hide_closed_scopes = false;
     
     /* Initialize import tracker */
     env->import_tracker = malloc(sizeof(ImportTracker));
@@ -261,6 +262,7 @@ void env_define_var_with_type_info(Environment *env, const char *name, Type type
     sym.from_c_header = false;  /* Not from C header (normal nanolang variable) */
     sym.def_line = 0;     /* Will be set by type checker if needed */
     sym.def_column = 0;
+    sym.scope_closed = false;
 
     /* WORKAROUND: Check if symbol already exists and preserve/update metadata */
     /* This handles a bug where symbols are added multiple times during type-checking.
@@ -308,6 +310,9 @@ Symbol *env_get_var(Environment *env, const char *name) {
         if (!env->symbols[i].name) {
             continue;
         }
+        if (env->hide_closed_scopes && env->symbols[i].scope_closed) {
+            continue;
+        }
         if (safe_strcmp(env->symbols[i].name, name) == 0) {
             return &env->symbols[i];
         }
@@ -334,6 +339,7 @@ Symbol *env_get_var_visible_at(Environment *env, const char *name, int line, int
     for (int i = env->symbol_count - 1; i >= 0; i--) {
         Symbol *sym = &env->symbols[i];
         if (!sym->name) continue;
+        if (env->hide_closed_scopes && sym->scope_closed) continue;
         if (safe_strcmp(sym->name, name) != 0) continue;
 
         int sline = sym->def_line;
@@ -352,6 +358,7 @@ Symbol *env_get_var_visible_at(Environment *env, const char *name, int line, int
     for (int i = env->symbol_count - 1; i >= 0; i--) {
         Symbol *sym = &env->symbols[i];
         if (!sym->name) continue;
+        if (env->hide_closed_scopes && sym->scope_closed) continue;
         if (safe_strcmp(sym->name, name) != 0) continue;
 
         if (sym->def_line > 0) continue;
